@@ -234,6 +234,21 @@ set_option maxRecDepth 20000 in
 example : validate { E0 with appAt := fun _ _ => some { pubRaw := hexOf "ab" 32, chains := ["0001"], maxRelays := 1 },
                              nodeCount := fun _ => 3 } r0 9 = .fail (pc 71) := by decide +kernel
 
+/-- The block-height check is exact on machine integers: for every node height and allowance a
+node can have (non-negative, sum below 2^63) and **every** `int64` client height — the corners
+`h + MinInt64`, `MinInt64`, `MaxInt64` included — the wrapped `int64` computation of
+`RelayMeta.Validate` rejects exactly when `|h − m| > allowance` over the integers.  (The two
+comparisons never negate a difference, so there is no `−MinInt64` case.) -/
+theorem meta_check_exact_on_int64 (h a m : Int) (hh : 0 ≤ h) (ha : 0 ≤ a) (hsum : h + a < 2 ^ 63)
+    (_hm : -(2 ^ 63) ≤ m ∧ m < 2 ^ 63) :
+    metaOutOfSync64 h a m = true ↔ (h + a < m ∨ h - a > m) := by
+  unfold metaOutOfSync64 wrap64
+  have e1 : (h + a + 2 ^ 63) % 2 ^ 64 - 2 ^ 63 = h + a := by omega
+  have e2 : (h - a + 2 ^ 63) % 2 ^ 64 - 2 ^ 63 = h - a := by omega
+  simp only [decide_eq_true_eq, e1, e2]
+
+example : metaOutOfSync64 69 3 (69 + -(2 ^ 63)) = true ∧ metaOutOfSync64 69 3 72 = false := by decide
+
 /-- With the default allowance 0 the window is the single height `latest`. -/
 theorem tolerance_zero_is_latest (E : Env) (sbh : Int) (h0 : E.sessionAllowance = 0)
     (h : withinTolerance E sbh = true) : sbh = latestSessionHeight E.height E.bps := by
